@@ -39,7 +39,8 @@ use mzkh::{
     copyrec::{requested_copies, CellRef},
     csdump::{cs_string, expr_string, requested_copies_hold, table_string_requested},
     shape::shape_string,
-    family::{sample_params, FamCircuit, FamParams, FaultKind, GateKind, LookupKind},
+    family::{sample_params, sample_params_ext, FamCircuit, FamParams, FaultKind, GateKind, LookupKind, NOZERO_BASE, SHAPE_GROUPS},
+    fixedrec::{requested_fixed_ops, FixedOp},
     Ctx,
 };
 use rand::{Rng, SeedableRng};
@@ -387,6 +388,13 @@ fn one_case(
             json!({"case": desc, "real": real, "mock": mock_ok}),
         );
     }
+    if label == "fault-lookup-outside" && (real || mock_ok) {
+        ctx.oracle_fail(
+            &format!("lookup-value-outside-table-accepted:{}", if real { "verifier" } else { "mock" }),
+            "a witness looking up a value that is not in the table was accepted",
+            json!({"case": desc, "real": real, "mock": mock_ok}),
+        );
+    }
     if real != mock_ok {
         let key = if mock_ok { "mock-accepts:verifier-rejects" } else { "mock-rejects:verifier-accepts" };
         ctx.oracle_fail(
@@ -427,6 +435,103 @@ fn domain_case(ctx: &mut Ctx, m: &Member, seen: &mut std::collections::BTreeSet<
     }
 }
 
+/// Run-length rendering of a column of field elements (the format of `csdump`).
+fn rle_hex(col: &[F]) -> String {
+    let vals: Vec<String> = col.iter().map(|v| if *v == F::ZERO { "0".to_string() } else { mzkh::fe_hex(v)[2..].to_string() }).collect();
+    let mut out: Vec<String> = vec![];
+    let mut i = 0;
+    while i < vals.len() {
+        let mut j = i;
+        while j < vals.len() && vals[j] == vals[i] {
+            j += 1;
+        }
+        out.push(if j - i > 1 { format!("{}*{}", vals[i], j - i) } else { vals[i].clone() });
+        i = j;
+    }
+    list(out, ",")
+}
+
+/// The fixed columns as KEY GENERATION produced them (`pk.fixed_values`, what prover and verifier
+/// use: lookup tables with their `fill_from_row` padding, constants, gate switches) and as
+/// `MockProver` holds them, vs the Lean mirrors of `keygen.rs: Assembly::{assign_fixed,
+/// fill_from_row}` and `dev/mod.rs: MockProver::{assign_fixed, fill_from_row}` replaying the writes
+/// the circuit requested (recorded by `FixedRecorder`, independent of both). Row by row, the last
+/// usable row included. Oracle: key generation and the mock checker hold the same fixed columns.
+/// Also `mockinit`: the rows of the advice columns `MockProver::run` poisons.
+fn fixed_columns_case(ctx: &mut Ctx, m: &Member, circuit: &FamCircuit, insts: &[Vec<F>], desc: &serde_json::Value) {
+    let (ops, nf) = requested_fixed_ops::<F, _>(circuit);
+    let n = 1usize << m.k;
+    let bl = m.pk.get_vk().cs().blinding_factors();
+    let (parts, _) = m.pk.verif_derived_parts();
+    let key_cols: Vec<Vec<F>> = parts.into_iter().find(|(name, _)| *name == "fixed_values").map(|(_, v)| v).unwrap_or_default();
+    let mp = match mzkh::catch(|| MockProver::run(m.k, circuit, insts.to_vec())) {
+        Ok(Ok(mp)) => mp,
+        _ => return,
+    };
+    let mock_cols: Vec<Vec<F>> = mp
+        .fixed()
+        .iter()
+        .map(|c| {
+            c.iter()
+                .map(|v| match v {
+                    midnight_proofs::dev::CellValue::Assigned(x) => *x,
+                    _ => F::ZERO,
+                })
+                .collect()
+        })
+        .collect();
+    let ops_s: Vec<String> = ops
+        .iter()
+        .map(|o| match o {
+            FixedOp::Assign(c, r, v) => format!("A.{c}.{r}.{}", &mzkh::fe_hex(v)[2..]),
+            FixedOp::Fill(c, r, v) => format!("F.{c}.{r}.{}", &mzkh::fe_hex(v)[2..]),
+        })
+        .collect();
+    let fills = ops.iter().filter(|o| matches!(o, FixedOp::Fill(..))).count();
+    let nonzero_fill = ops.iter().filter(|o| matches!(o, FixedOp::Fill(_, _, v) if *v != F::ZERO)).count();
+    ctx.count_n("fixedcols:fill_from_row-calls", fills as u64);
+    ctx.count_n("fixedcols:fill_from_row-with-nonzero-filler", nonzero_fill as u64);
+    let render = |cols: &[Vec<F>]| list(cols.iter().take(nf).map(|c| rle_hex(c)).collect(), "/");
+    ctx.case(
+        "fixedcols",
+        true,
+        &format!("fixedcols n={} bl={} nf={} ops={}", n, bl, nf, list(ops_s, ",")),
+        &format!("key={} mock={}", render(&key_cols), render(&mock_cols)),
+    );
+    if key_cols.iter().take(nf).ne(mock_cols.iter().take(nf)) {
+        let usable = n - (bl + 1);
+        let diff: Vec<(usize, usize)> = (0..nf.min(key_cols.len()).min(mock_cols.len()))
+            .flat_map(|c| (0..n).map(move |r| (c, r)))
+            .filter(|(c, r)| key_cols[*c][*r] != mock_cols[*c][*r])
+            .take(8)
+            .collect();
+        ctx.oracle_fail(
+            "fixed-columns:keygen-differs-from-mock",
+            "the fixed columns key generation produced (what prover and verifier use) differ from the ones the mock checker holds for the same circuit",
+            json!({"case": desc, "usable_rows": usable, "first_differences_col_row": diff}),
+        );
+    }
+    // poisoned rows of the advice columns right after `MockProver::run`
+    let poison: Vec<String> = mp
+        .advice()
+        .iter()
+        .map(|c| {
+            let rows: Vec<usize> = c
+                .iter()
+                .enumerate()
+                .filter(|(_, v)| matches!(v, midnight_proofs::dev::CellValue::Poison(_)))
+                .map(|(i, _)| i)
+                .collect();
+            let tagged = c.iter().enumerate().all(|(i, v)| match v {
+                midnight_proofs::dev::CellValue::Poison(j) => i == *j,
+                _ => true,
+            });
+            format!("{}{}", list(rows.iter().map(|r| r.to_string()).collect(), ","), if tagged { "" } else { "!tag" })
+        })
+        .collect();
+    ctx.case("mockinit", true, &format!("mockinit n={} bl={} na={}", n, bl, mp.advice().len()), &format!("poison={}", list(poison, "/")));
+}
+
 fn run_member(ctx: &mut Ctx, fp: &FamParams, seed: u64, max_faults: usize, two_proofs: bool, seen_k: &mut std::collections::BTreeSet<u32>) {
     let m = setup_member(fp, seed);
     domain_case(ctx, &m, seen_k);
@@ -462,9 +567,42 @@ fn run_member(ctx: &mut Ctx, fp: &FamParams, seed: u64, max_faults: usize, two_p
     let insts = base.instances();
     let desc0 = json!({"params": format!("{fp:?}"), "seed": seed, "k": m.k});
     one_case(ctx, &m, "honest", &base, &insts, true, seed, desc0.clone());
+    fixed_columns_case(ctx, &m, &base, &insts, &desc0);
     // number of advice assignments
     let _ = MockProver::run(m.k, &base, insts.clone());
     let cells = base.cell_count.load(std::sync::atomic::Ordering::SeqCst);
+    {
+        // lookup-membership sweep: for EVERY lookup of the member, one of its input cells set to
+        // values that are not in the table — 0 (the value an unfilled table row would hold), the
+        // value just below the first table row / the filler, the value just above the last table
+        // row, a large value. Verifier, mock checker and the Lean row semantics must all reject.
+        let lcells = base.lookup_cells.lock().unwrap().clone();
+        let tmax = 1u64 << fp.table_bits;
+        // the floor planner runs every region closure twice (shape pass, then assignment pass):
+        // the assignment pass of the first step of each lookup is its SECOND recorded entry
+        let mut seen_li: std::collections::BTreeMap<usize, usize> = std::collections::BTreeMap::new();
+        for (cell, li) in lcells {
+            let e = seen_li.entry(li).or_insert(0);
+            *e += 1;
+            if *e != 2 {
+                continue;
+            }
+            let outside: Vec<u64> = match fp.lookups[li] {
+                LookupKind::NoZero => vec![0, NOZERO_BASE - 1, NOZERO_BASE + tmax, 1 << 40],
+                LookupKind::MixedDeg => vec![mzkh::family::MIXED_ROWS + 1, 1 << 40],
+                LookupKind::Range | LookupKind::Pair => vec![tmax, 1 << 40],
+                LookupKind::AnyInstance => vec![tmax + 1, 1 << 40],
+            };
+            for v in outside {
+                let mut c = base.clone();
+                c.fault = Some((cell, FaultKind::Set(v)));
+                let mut d = desc0.clone();
+                d["fault"] = json!({"cell": cell, "lookup": li, "kind": format!("Set({v})")});
+                ctx.count(&format!("lookup-outside:{:?}", fp.lookups[li]));
+                one_case(ctx, &m, "fault-lookup-outside", &c, &insts, true, seed, d);
+            }
+        }
+    }
     let mut rng = ctx.rng(&format!("faults{seed}"));
     let kinds = [FaultKind::PlusOne, FaultKind::Zero, FaultKind::Neighbour, FaultKind::Random];
     let mut picks: Vec<(usize, FaultKind)> = (0..cells).flat_map(|i| kinds.iter().map(move |k| (i, *k))).collect();
@@ -524,6 +662,52 @@ fn run_member(ctx: &mut Ctx, fp: &FamParams, seed: u64, max_faults: usize, two_p
     }
 }
 
+/// A member with a gate switched by a plain fixed column, active on ONE absolute row chosen
+/// relative to the last usable row of the domain of size `2^k`: `back` rows before it, reading
+/// `Rotation(rot)`. `back < rot`: the gate reads an unusable row (the first one when
+/// `rot = back + 1`) — a cell the circuit cannot assign, which the prover fills with a random
+/// value and the mock checker poisons: everybody must reject (the mock by `ConstraintPoisoned`).
+/// `back >= rot`: the cell read is usable and unassigned (0): satisfied, everybody accepts.
+fn last_row_member(k: u32, back: usize, rot: u8, extra: Vec<GateKind>) -> FamParams {
+    use midnight_proofs::plonk::{Circuit, ConstraintSystem};
+    let mk = |row: u16| {
+        let mut gates = extra.clone();
+        gates.push(GateKind::LastRow { row, rot });
+        FamParams { gates, steps: 3, copies: false, inst_copies: false, ..FamParams::default() }
+    };
+    let mut cs = ConstraintSystem::<F>::default();
+    let _ = FamCircuit::configure_with_params(&mut cs, mk(0));
+    let usable = (1usize << k) - (cs.blinding_factors() + 1);
+    mk((usable - 1 - back) as u16)
+}
+
+/// The members of the extended family (new gate / lookup kinds; C01 and C02 only).
+fn extended_members(ctx: &mut Ctx, per_member: usize, seen_k: &mut std::collections::BTreeSet<u32>) {
+    // expression shapes (every branch of the prover's expression compiler)
+    for g in 0..SHAPE_GROUPS {
+        let fp = FamParams { gates: vec![GateKind::Shapes(g)], steps: 3, ..FamParams::default() };
+        run_member(ctx, &fp, 40 + g as u64, per_member / 3, g == 0, seen_k);
+    }
+    // mixed-degree `lookup_any` (the only constraint of degree 6), table without zero row
+    let mixed = FamParams { gates: vec![GateKind::Mul], lookups: vec![LookupKind::MixedDeg], steps: 5, ..FamParams::default() };
+    run_member(ctx, &mixed, 45, per_member / 2, true, seen_k);
+    let nozero = FamParams { gates: vec![GateKind::Mul], lookups: vec![LookupKind::NoZero], steps: 5, table_bits: 2, ..FamParams::default() };
+    run_member(ctx, &nozero, 46, per_member / 2, true, seen_k);
+    let nozero2 = FamParams {
+        gates: vec![GateKind::Mul, GateKind::Additive],
+        lookups: vec![LookupKind::NoZero, LookupKind::Range, LookupKind::MixedDeg],
+        steps: 8,
+        ..FamParams::default()
+    };
+    run_member(ctx, &nozero2, 47, per_member / 2, false, seen_k);
+    // fixed-column-switched gate on / near the last usable row
+    for (i, (back, rot)) in [(0usize, 1u8), (1, 2), (0, 2), (1, 1), (2, 2)].into_iter().enumerate() {
+        let fp = last_row_member(5, back, rot, if i % 2 == 0 { vec![GateKind::Mul] } else { vec![GateKind::LinRot, GateKind::Mul] });
+        ctx.count(&format!("last-row-gate:back={back}:rot={rot}:{}", if back < rot as usize { "reads-unusable-row" } else { "reads-usable-row" }));
+        run_member(ctx, &fp, 50 + i as u64, 6, false, seen_k);
+    }
+}
+
 /// Failing-input search (run when a theorem or a correspondence broke): for every constraint
 /// class a small member exercising it, with EVERY advice assignment x every fault kind, so that
 /// a witness violating only that class is certainly among the inputs. An accepted proof from an
@@ -561,6 +745,7 @@ fn main() {
             let fp = sample_params(&mut rng);
             run_member(&mut ctx, &fp, 6000 + i as u64, 60, false, &mut seen_k);
         }
+        extended_members(&mut ctx, 30, &mut seen_k);
         ctx.finish();
         return;
     }
@@ -601,6 +786,14 @@ fn main() {
     // set, i.e. permFirst, permLast and a single product rule, no chain rule
     let one_set = FamParams { gates: vec![GateKind::Pow(6)], n_adv0: 3, n_plain: 0, inst_copies: false, ..FamParams::default() };
     run_member(&mut ctx, &one_set, 25, per_member / 2, false, &mut seen_k);
+    extended_members(&mut ctx, per_member, &mut seen_k);
+    {
+        let mut erng = ctx.rng("family-ext");
+        for i in 0..(n_members / 2) {
+            let fp = sample_params_ext(&mut erng);
+            run_member(&mut ctx, &fp, 3000 + i as u64, per_member / 2, false, &mut seen_k);
+        }
+    }
     // replay aid: `C02_ONLY_MEMBER=<member seed>` runs only that sampled member
     let only: Option<u64> = std::env::var("C02_ONLY_MEMBER").ok().and_then(|s| s.parse().ok());
     for i in 0..n_members {
